@@ -42,7 +42,7 @@ fn main() {
         Some("term-search") => term::search(&v),
         Some("dump-search") => dump::search(&v),
         Some("values-search") => values::search(&v),
-        Some("values-enum") => values::enumerate(args.get(1).and_then(|s| s.parse().ok()).unwrap_or(3), args.get(2).map(String::as_str).unwrap_or("straight")),
+        Some("values-enum") => values::enumerate(args.get(1).and_then(|s| s.parse().ok()).unwrap_or(3), args.get(2).map(String::as_str).unwrap_or("straight"), args.get(3).and_then(|s| s.parse().ok())),
         Some("lines-search") => lines::search(&v),
         Some("decode-finding") => decode::finding(args.get(1).map(String::as_str).unwrap_or("")),
         Some("decode-search") => decode::search(&v),
